@@ -101,7 +101,7 @@ BoxFactViolations(b, rr, U) ==
   Named(rr.bool = NonNull(b), "X06.BoolIsNonNull")
   \cup Named(rr.pts = Pts(b, U), "X06.InsideIsClosedBox")
   \cup Named(rr.inf = IsInfinite(b), "X06.InfiniteFlag")
-  \cup (IF NonNull(b)
+  \cup (IF NonNull(b) /\ rr.bool
         THEN Named(rr.fin = IsFinite(b), "X06.FiniteFlag")
              \cup Named(rr.deg = IsDegenerate(b), "X06.DegenerateFlag")
              \cup Named(/\ rr.c2 = [a \in Axes |-> Centre2(b, a)]
